@@ -374,22 +374,26 @@ open SyncOrder in
   (`inbox` is computed from the pre-sync state of *every* process; no process waits for a message before all of its
   own are on their way);
 * everything received is added between `beginResize` and `endResize` (one resize = one increment of the sequence
-  number, `finish`), `repairLocalIndexPointers` runs after the index set is sorted again and before the keys it
-  needs (`globalMap_`) are dropped;
-* all per-sync members are emptied after the last receive (a second `sync` on the same object starts like the
-  first: `sync ∘ sync`, `runSteps`);
+  number, `finish`), `repairLocalIndexPointers` runs after the index set is sorted again;
+* every per-sync member is emptied exactly once per sync, unconditionally, at a place where it is not in use - before
+  its first use in this sync or after its last (so a second `sync` on the same object starts like the first:
+  `sync ∘ sync`, `runSteps`): `infoSend_` is in use from `sizes` to the packing loop, `globalMap_` from the set-up loop
+  (the loop that also fills `pendingSources_`) to `repairLocalIndexPointers`, `oldMap_` and `iteratorsMap_` from the
+  set-up loop to the receiving loop, `addedIndices_` during the receiving loop;
 * both sequence numbers are set from the index set after `endResize` (`isSynced`), the wait for the sends comes after
   the receives (synchronous sends complete only when matched). -/
 def syncPhasesOK (evs : List SyncEv) : Bool :=
   once evs .sizes && once evs .beginResize && once evs .endResize && once evs .repair && once evs .waitall
   && perNeighbour evs .pack && perNeighbour evs .recv && perNeighbour evs .markPending
-  && loopOf evs .pack != loopOf evs .recv
+  && loopOf evs .pack != loopOf evs .recv && loopOf evs .markPending != loopOf evs .recv
   && before evs .sizes .pack && before evs .pack .recv && before evs .beginResize .recv && before evs .markPending .recv
+  && before evs .markPending .pack
   && before evs .recv .waitall && before evs .recv .endResize && before evs .endResize .repair
-  && before evs .repair .clearGlobal
   && once evs .clearIterators && once evs .clearOld && once evs .clearAdded && once evs .clearGlobal && once evs .clearInfo
-  && before evs .recv .clearIterators && before evs .recv .clearOld && before evs .recv .clearAdded
-  && before evs .recv .clearInfo
+  && (before evs .clearInfo .sizes || before evs .pack .clearInfo)
+  && (before evs .clearGlobal .markPending || before evs .repair .clearGlobal)
+  && (before evs .clearOld .markPending || before evs .recv .clearOld)
+  && (before evs .clearIterators .markPending || before evs .recv .clearIterators)
   && once evs .seqSource && once evs .seqDest && before evs .endResize .seqSource && before evs .endResize .seqDest
   && count evs .clearPending == 0
 
